@@ -1,5 +1,5 @@
 import Updog.Generated
 namespace Updog.Facts
 open Updog.Generated
-theorem C13_facts : serverLoopShape = true ∧ serverResponseFresh = true ∧ grpcQueryFreshContext = true ∧ toQueryUsesGetters = true := by decide
+theorem C13_facts : serverPlainGrpcServer = true ∧ driverMethodSet = true ∧ serverLoopShape = true ∧ serverResponseFresh = true ∧ grpcQueryFreshContext = true ∧ toQueryUsesGetters = true := by decide
 end Updog.Facts
